@@ -48,6 +48,7 @@ type DagCase struct {
 	CtlSeed  int64            `json:"ctlseed"`
 	CancelAt int              `json:"cancelat"` // controller step at which the context is cancelled (-1: never)
 	Shared   bool             `json:"shared,omitempty"` // run a second graph sharing the Task objects concurrently
+	BigOut   bool             `json:"bigout,omitempty"` // odd tasks write more than 64 KiB per attempt
 }
 
 func (t TRef) proto() string {
@@ -289,6 +290,8 @@ type dagRun struct {
 	graphs        map[*dag.Graph]int
 	g2events      []dagEvent
 	sharedNow     map[int]*int32
+	second        int32 // set once the first Run has returned
+	secondEntered int32
 }
 
 func (r *dagRun) violate(msg string) {
@@ -397,6 +400,11 @@ func (w recWriter) Write(p []byte) (int, error) {
 
 func (r *dagRun) taskFn(id int, gno int) getoptions.CommandFn {
 	return func(ctx context.Context, opt *getoptions.GetOpt, args []string) error {
+		if atomic.LoadInt32(&r.second) != 0 {
+			// the graph is being run again after it finished: nothing may be entered a second time
+			atomic.AddInt32(&r.secondEntered, 1)
+			return nil
+		}
 		if gno != 0 {
 			// second graph sharing the Task objects: only mutual exclusion per Task is observed
 			cnt := r.sharedNow[id]
@@ -434,6 +442,10 @@ func (r *dagRun) taskFn(id int, gno int) getoptions.CommandFn {
 			w := dag.Stdout(ctx)
 			fmt.Fprintf(w, "<%d", id)
 			fmt.Fprintf(dag.Stderr(ctx), ".")
+			if r.c.BigOut && id%2 == 1 {
+				// a chatty task: more output than any internal buffer size one would pick
+				w.Write(bytes.Repeat([]byte{'z'}, 70000+id))
+			}
 		}
 		r.mu.Lock()
 		t := r.ts[id]
@@ -908,6 +920,11 @@ func runDagCase(c *DagCase, d *Driver) *DagResult {
 			res.Violations = append(res.Violations, "second graph sharing the tasks did not finish")
 		}
 	}
+	// 3b. the same graph run again: same verdict, nothing entered a second time; then extended with
+	// independent tasks under a lower limit, which the new Run has to respect
+	curRun.Store((*dagRun)(nil))
+	atomic.StoreInt32(&r.second, 1)
+	res.Violations = append(res.Violations, r.secondRun(g, runErr, wantPre)...)
 	r.mu.Lock()
 	defer r.mu.Unlock()
 	res.Events = append([]dagEvent{}, r.events...)
@@ -954,6 +971,67 @@ func runDagCase(c *DagCase, d *Driver) *DagResult {
 		}
 	}
 	return res
+}
+
+func (r *dagRun) secondRun(g *dag.Graph, runErr error, pre string) []string {
+	var v []string
+	run := func() (error, bool) {
+		ch := make(chan error, 1)
+		go func() { ch <- g.Run(context.Background(), nil, nil) }()
+		select {
+		case e := <-ch:
+			return e, true
+		case <-time.After(10 * time.Second):
+			return nil, false
+		}
+	}
+	e2, ok := run()
+	if !ok {
+		return []string{"a second Run of the finished graph does not return"}
+	}
+	if (e2 == nil) != (runErr == nil) {
+		v = append(v, fmt.Sprintf("the first Run of the graph returned %v, a second Run of the same graph %v", runErr, e2))
+	}
+	if n := atomic.LoadInt32(&r.secondEntered); n > 0 {
+		v = append(v, fmt.Sprintf("%d task functions entered again by a second Run of the finished graph", n))
+	}
+	if pre != "schedule" || runErr != nil || e2 != nil {
+		return v
+	}
+	m := 1 + int(r.c.CtlSeed>>3)%2
+	g.SetMaxParallel(m)
+	limit := m
+	if r.c.Serial {
+		limit = 1
+	}
+	var now, max, ran int32
+	for i := 0; i < m+3; i++ {
+		g.AddTask(dag.NewTask(fmt.Sprintf("x%d", i), func(ctx context.Context, opt *getoptions.GetOpt, args []string) error {
+			n := atomic.AddInt32(&now, 1)
+			for {
+				mx := atomic.LoadInt32(&max)
+				if n <= mx || atomic.CompareAndSwapInt32(&max, mx, n) {
+					break
+				}
+			}
+			time.Sleep(300 * time.Microsecond)
+			atomic.AddInt32(&now, -1)
+			atomic.AddInt32(&ran, 1)
+			return nil
+		}))
+	}
+	e3, ok := run()
+	switch {
+	case !ok:
+		v = append(v, "Run of the extended graph does not return")
+	case e3 != nil:
+		v = append(v, fmt.Sprintf("Run of the graph extended with independent tasks returned %v", e3))
+	case int(ran) != m+3:
+		v = append(v, fmt.Sprintf("Run of the extended graph executed %d of the %d new tasks", ran, m+3))
+	case int(max) > limit:
+		v = append(v, fmt.Sprintf("second Run: %d task functions executing at once, limit %d", max, limit))
+	}
+	return v
 }
 
 func entryCanon(l []string) string {
@@ -1225,7 +1303,7 @@ func wholeBlocks(w string) bool {
 		if i < 0 {
 			return false
 		}
-		inner := w[1:i]
+		inner := strings.ReplaceAll(w[1:i], "z", "")
 		p := strings.SplitN(inner, ".", 2)
 		if len(p) != 2 || p[0] != p[1] {
 			return false
@@ -1355,6 +1433,7 @@ func genDagCase(r *rand.Rand, id int, prop string) *DagCase {
 		c.Max = 1 + r.Intn(3)
 	}
 	c.Buffer = r.Intn(4) == 0
+	c.BigOut = r.Intn(5) == 0
 	if r.Intn(6) == 0 {
 		c.CancelAt = r.Intn(n + 1)
 	}
